@@ -259,7 +259,8 @@ class StmtMixin:
     def s_Return(self, s, st):
         if s.value is None:
             return [Outcome("return", st, val=NONE)]
-        return self.root_eval(s.value, st, s, lambda v, st2: [Outcome("return", st2, val=v)])
+        hint = self.con.ret if isinstance(self.con.ret, (TList, TSet, TDict)) else None
+        return self.root_eval(s.value, st, s, lambda v, st2: [Outcome("return", st2, val=v)], hint=hint)
 
     def s_Raise(self, s, st):
         e = s.exc
@@ -557,11 +558,11 @@ class StmtMixin:
             k = z3.Const(fresh_name("k"), sort_of(kty))
             j = z3.Int(fresh_name("j"))
             st.assume(n >= 0)
-            st.assume(z3.ForAll([k], z3.Implies(z3.Select(d_dom(v.t), k), z3.And(0 <= idx(k), idx(k) < n, l_at(ks.t, idx(k)) == k)),
+            st.assume(forall([k], z3.Implies(z3.Select(d_dom(v.t), k), z3.And(0 <= idx(k), idx(k) < n, l_at(ks.t, idx(k)) == k)),
                                 patterns=[idx(k)]))
-            st.assume(z3.ForAll([k], z3.Implies(z3.Select(d_dom(v.t), k), z3.And(0 <= idx(k), idx(k) < n, l_at(ks.t, idx(k)) == k)),
+            st.assume(forall([k], z3.Implies(z3.Select(d_dom(v.t), k), z3.And(0 <= idx(k), idx(k) < n, l_at(ks.t, idx(k)) == k)),
                                 patterns=[z3.Select(d_dom(v.t), k)]))
-            st.assume(z3.ForAll([j], z3.Implies(z3.And(0 <= j, j < n), z3.And(z3.Select(d_dom(v.t), l_at(ks.t, j)), idx(l_at(ks.t, j)) == j)),
+            st.assume(forall([j], z3.Implies(z3.And(0 <= j, j < n), z3.And(z3.Select(d_dom(v.t), l_at(ks.t, j)), idx(l_at(ks.t, j)) == j)),
                                 patterns=[l_at(ks.t, j)]))
 
             def ed(j):
